@@ -91,6 +91,8 @@ def parseProcOp (j : Json) : Except String ProcOp := do
   | "mutate" => return .mutate (← natOf j "id") (← parseNoiseVal (← j.getObjVal? "P"))
   | "assign" => return .assign (← natOf j "id")
   | "input" => return .input (← natList (← j.getObjVal? "ns"))
+  | "custom" => return .custom (← natOf j "c")
+  | "clear" => return .clear
   | "read" => return .read
   | "source" => return .useSource (← natList (← j.getObjVal? "ns")) (← ratOf j "thr")
   | "other" => return .other
@@ -114,20 +116,23 @@ def runHist (j : Json) : Except String Json := do
       | .input ns => nearGenAll s.src 0 ns s.tag
       | .read => (match s.cache, s.input with
                   | some _, _ => cacheNear
-                  | none, some ns => nearGenAll s.src 0 ns s.tag
-                  | none, none => false)
+                  | none, some (.fock ns) => nearGenAll s.src 0 ns s.tag
+                  | none, _ => false)
       | .useSource ns thr => nearGenAll s.src thr ns s.tag
       | _ => false
     match op with
     | .input _ => cacheNear := near
     | .read => cacheNear := near
     | .assign _ => cacheNear := false
+    | .custom _ => cacheNear := false
+    | .clear => cacheNear := false
     | _ => pure ()
     let (s', o) := procStep s op
     outs := outs.push (match o with
       | none => Json.mkObj [("dirty", toJson s'.dirty)]
-      | some d => Json.mkObj [("dist", distJ stateJ d), ("near", toJson near),
-                              ("dirty", toJson s'.dirty)])
+      | some (.gen d) => Json.mkObj [("dist", distJ stateJ d), ("near", toJson near),
+                                     ("dirty", toJson s'.dirty)]
+      | some (.custom c) => Json.mkObj [("custom", toJson c), ("dirty", toJson s'.dirty)])
     s := s'
   return Json.mkObj [("outs", Json.arr outs)]
 
